@@ -54,6 +54,10 @@ ReserveOk(k)   == /\ Fits(k)
 ReserveFail(k) == /\ ~Fits(k)
                   /\ UNCHANGED <<log, resv>> /\ last' = Outcome("r", k, 0, FALSE)
 
+\* a reservation no address space can hold (k = 0: the largest size there is; k = 1: the smallest size for which position +
+\* size no longer fits a machine word): it fails on both kinds of target and, like every failing operation, changes nothing
+ReserveHuge(k) == /\ UNCHANGED <<log, resv>> /\ last' = Outcome("rh", k, 0, FALSE)
+
 Room(r) == resv[r].e - resv[r].s
 WriteResOk(r, k)   == /\ Room(r) >= k
                       /\ log' = [i \in 1..Len(log) |->
@@ -68,6 +72,7 @@ BNext == /\ Tick
          /\ \/ WriteByteOk \/ WriteByteFail
             \/ \E k \in 0..MaxK : WriteBytesOk(k) \/ WriteBytesFail(k)
             \/ \E k \in 0..MaxK : ReserveOk(k) \/ ReserveFail(k)
+            \/ \E k \in 0..1 : ReserveHuge(k)
             \/ \E r \in 1..Len(resv), k \in 0..MaxK : WriteResOk(r, k) \/ WriteResFail(r, k)
 
 ----------------------------------------------------------------------------------------------------
